@@ -1686,9 +1686,17 @@ def outcome_summary(f: Func, repo: Repo | None, depth: int = 0) -> dict[str, lis
             ident: Fact | None = None
             vexp = norm.canon(site.expand(v))
             pnames = set(f.params)
-            if norm.free_names(vexp) and norm.free_names(vexp) <= pnames and not any(isinstance(n_, (ast.Call, ast.Lambda, ast.ListComp, ast.GeneratorExp, ast.DictComp, ast.SetComp))
-                                                                                  and not (isinstance(n_, ast.Call) and isinstance(n_.func, ast.Attribute) and not n_.args and not n_.keywords)
-                                                                                  for n_ in ast.walk(vexp)) and _size(vexp) <= 40:
+            def _plain(n_: ast.AST) -> bool:
+                # attribute reads, argument-less method calls and constructor-style calls `Name(args)` (the value built, not object identity)
+                if isinstance(n_, (ast.Lambda, ast.ListComp, ast.GeneratorExp, ast.DictComp, ast.SetComp)):
+                    return False
+                if isinstance(n_, ast.Call):
+                    return (isinstance(n_.func, ast.Attribute) and not n_.args and not n_.keywords) or (
+                        isinstance(n_.func, ast.Name) and n_.func.id[:1].isupper() and not n_.keywords)
+                return True
+
+            fn_ = norm.free_names(vexp) - {n_.func.id for n_ in ast.walk(vexp) if isinstance(n_, ast.Call) and isinstance(n_.func, ast.Name)}
+            if fn_ and fn_ <= pnames and all(_plain(n_) for n_ in ast.walk(vexp)) and _size(vexp) <= 40:
                 ident = Fact(ast.fix_missing_locations(ast.Compare(ast.Name("__ret__", ast.Load()), [ast.Is()], [copy.deepcopy(vexp)])))
             for pol, name in ((True, "true"), (False, "false")):
                 d = over_ret(refine(site, base, v, pol))
